@@ -121,3 +121,8 @@ def run_monitor_kinds(chk: Check, rng: random.Random, thorough: bool):
 def _is_init(s):
     return s["calls"] == 0 and not s["rec"] and s["x"] == -1 and s["tr"] is True and s["reg"] == s["c"]["attach"] \
         and s["known"] == s["c"]["attach"] and "mut" not in s["preh"] and "mut" not in s["posth"]
+
+
+def phase(chk: Check, tier: str, rng: random.Random):
+    """entry point for harness.subcheck (a process of its own beside the lifecycle phases)"""
+    run_monitor_kinds(chk, rng, tier == "thorough")
